@@ -596,6 +596,15 @@ impl Db {
         self.query_full(sql, true)
     }
 
+    /// `LocustDB::search_column_names` (the catalogue accessor the server's /columns endpoint uses).
+    pub fn search_column_names(&self, table: &str, pattern: &str) -> Call<Result<Vec<String>, String>> {
+        let db = self.raw().clone();
+        let (table, pattern) = (table.to_string(), pattern.to_string());
+        with_deadline("search_column_names", call_deadline(), move || {
+            futures::executor::block_on(db.search_column_names(&table, &pattern)).map_err(|e| e.to_string())
+        })
+    }
+
     pub fn flush(&self) -> Call<()> {
         let db = self.raw().clone();
         with_deadline("force_flush", call_deadline(), move || db.force_flush())
